@@ -2226,6 +2226,509 @@ static void run_life(vrt_rng *r, int idx, int max_cycles)
     vrt_count(c_cases, 1);
 }
 
+/* ======================================================================= */
+/* mode=migrate (C13) */
+#define MMAXP 6
+typedef struct {
+    ABT_thread th;
+    int starts, done;     /* atomic */
+    int cur_pool;         /* atomic: pool index observed at the last slice start */
+    uint64_t req;         /* atomic: (seq << 8) | target pool index of the latest successful request */
+    int cb_count;         /* atomic */
+    int cb_bad;           /* atomic */
+    int changes;          /* pool changes observed by the unit (only touched by the unit) */
+    int stop;             /* atomic */
+    int park;             /* atomic: unit suspends itself and waits to be resumed */
+    int parked;           /* atomic */
+    uint64_t hist_seq[3];
+    int cur_rank;         /* atomic */
+    long slices;          /* atomic */
+    int self_requests;
+    vrt_rng rng;
+} mig_t;
+static mig_t g_m;
+static ABT_pool g_mpools[MMAXP];
+static int g_nmpools;
+static int c_mscen, c_mreq_ok, c_mreq_rejected, c_mseq_exact, c_mconc_req, c_mself_req, c_mcb, c_mrej_same_pool,
+    c_mrej_nonmigratable, c_mrej_mainsched, c_mmigrate_any_ok, c_mmigrate_any_na, c_mto_xstream, c_mto_sched, c_mslices;
+
+/* small event ring for diagnostics */
+static struct {
+    char what;
+    int a, b;
+    uint64_t t;
+} g_mring[64];
+static uint64_t g_mring_n;
+static int g_mring_on;
+static void mring(char what, int a, int b)
+{
+    if (!g_mring_on)
+        return;
+    uint64_t i = __atomic_fetch_add(&g_mring_n, 1, __ATOMIC_SEQ_CST);
+    g_mring[i & 63].what = what;
+    g_mring[i & 63].a = a;
+    g_mring[i & 63].b = b;
+    g_mring[i & 63].t = i;
+}
+static void mring_dump(char *buf, size_t n)
+{
+    uint64_t e = __atomic_load_n(&g_mring_n, __ATOMIC_SEQ_CST);
+    size_t off = 0;
+    for (uint64_t i = e > 24 ? e - 24 : 0; i < e && off + 24 < n; i++)
+        off += (size_t)snprintf(buf + off, n - off, "%c(%d,%d) ", g_mring[i & 63].what, g_mring[i & 63].a, g_mring[i & 63].b);
+}
+static int mpool_index(ABT_pool p)
+{
+    for (int i = 0; i < g_nmpools; i++)
+        if (g_mpools[i] == p)
+            return i;
+    return -1;
+}
+static void mig_cb(ABT_thread th, void *arg)
+{
+    if (arg != (void *)&g_m || th != g_m.th)
+        __atomic_store_n(&g_m.cb_bad, 1, __ATOMIC_SEQ_CST);
+    __atomic_fetch_add(&g_m.cb_count, 1, __ATOMIC_SEQ_CST);
+    {
+        ABT_pool lp = ABT_POOL_NULL;
+        ABT_thread_get_last_pool(th, &lp);
+        mring('C', mpool_index(lp), 0);
+    }
+    vrt_count(c_mcb, 1);
+}
+/* Requests are issued and recorded under one harness lock so that the order
+ * of the records equals the order in which the runtime saw the requests. */
+static int g_mreq_lock;
+static void mreq_lock(void)
+{
+    while (__atomic_exchange_n(&g_mreq_lock, 1, __ATOMIC_ACQUIRE))
+        sched_yield();
+}
+static void mreq_unlock(void)
+{
+    __atomic_store_n(&g_mreq_lock, 0, __ATOMIC_RELEASE);
+}
+static void mig_note_request(int pool)
+{
+    uint64_t old = __atomic_load_n(&g_m.req, __ATOMIC_SEQ_CST), nw;
+    do {
+        nw = (((old >> 8) + 1) << 8) | (uint64_t)pool;
+    } while (!__atomic_compare_exchange_n(&g_m.req, &old, nw, 0, __ATOMIC_SEQ_CST, __ATOMIC_SEQ_CST));
+    mring('N', pool, (int)(nw >> 8));
+}
+/* A request whose call is in progress may already take effect (the runtime
+ * may read its target before the call returns), so the expected pool is
+ * "unknown" (0xff) from just before the call until its outcome is recorded. */
+static int mig_request_begin(void)
+{
+    int prev = (int)(__atomic_load_n(&g_m.req, __ATOMIC_SEQ_CST) & 0xff);
+    mig_note_request(0xff);
+    return prev;
+}
+static void mig_request_end(int rc, int pool, int prev)
+{
+    mig_note_request(rc == ABT_SUCCESS ? pool : prev);
+}
+
+static void mig_fn(void *arg)
+{
+    mig_t *m = (mig_t *)arg;
+    if (__atomic_add_fetch(&m->starts, 1, __ATOMIC_SEQ_CST) != 1)
+        vrt_violation("migrate:started-twice", "the migrating unit was started again");
+    int prev = -1;
+    uint64_t r1 = 0, r2 = 0; /* request words seen at the two previous slice starts */
+    int have = 0;
+    while (!__atomic_load_n(&m->stop, __ATOMIC_SEQ_CST) && vrt_num_violations() == 0) {
+        /* slice start */
+        ABT_pool lp = ABT_POOL_NULL;
+        VRT_ABT(ABT_self_get_last_pool(&lp));
+        int cur = mpool_index(lp);
+        int rank = -1;
+        ABT_self_get_xstream_rank(&rank);
+        uint64_t rq = __atomic_load_n(&m->req, __ATOMIC_SEQ_CST);
+        if (cur < 0)
+            vrt_violation("migrate:unknown-pool", "the unit runs from a pool that is none of the scenario's pools");
+        if (prev >= 0 && cur != prev)
+            m->changes++;
+        /* a request that was recorded before the slice before the previous one
+         * started and was not followed by another one must be in effect now */
+        if (have >= 2 && r2 == rq && (rq >> 8) > 0 && (rq & 0xff) != 0xff && (int)(rq & 0xff) != cur) {
+            uint32_t reqbits = ABTD_atomic_acquire_load_uint32(&((ABTI_thread *)m->th)->request);
+            char ring[700];
+            ring[0] = 0;
+            mring_dump(ring, sizeof(ring));
+            vrt_note("migrate_ring", "%s", ring);
+            vrt_violation("migrate:request-not-honoured",
+                          "a successful migration request to pool %d was recorded two scheduling points ago and none "
+                          "since, but the unit still runs from pool %d (request word seq %llu, pending request bits 0x%x, "
+                          "callbacks so far %d, previous slice pool %d)", (int)(rq & 0xff), cur,
+                          (unsigned long long)(rq >> 8), reqbits, __atomic_load_n(&m->cb_count, __ATOMIC_SEQ_CST), prev);
+        }
+        r2 = r1;
+        r1 = rq;
+        if (have < 2)
+            have++;
+        prev = cur;
+        mring('S', cur, (int)(rq >> 8));
+        __atomic_store_n(&m->cur_pool, cur, __ATOMIC_SEQ_CST);
+        __atomic_store_n(&m->cur_rank, rank, __ATOMIC_SEQ_CST);
+        __atomic_fetch_add(&m->slices, 1, __ATOMIC_SEQ_CST);
+        vrt_count(c_mslices, 1);
+        /* self-issued request now and then */
+        if (vrt_range(&m->rng, 16) == 0 && __atomic_load_n(&m->self_requests, __ATOMIC_SEQ_CST)) {
+            int k = (int)vrt_range(&m->rng, (uint64_t)g_nmpools);
+            mreq_lock();
+            int prevt = mig_request_begin();
+            int rc = ABT_thread_migrate_to_pool(m->th, g_mpools[k]);
+            mig_request_end(rc, k, prevt);
+            if (rc == ABT_SUCCESS)
+                vrt_count(c_mself_req, 1);
+            mreq_unlock();
+            if (rc != ABT_SUCCESS && k != cur)
+                vrt_violation("migrate:self-request-rejected", "self-issued migrate_to_pool(%d) from pool %d returned %d",
+                              k, cur, rc);
+        }
+        if (__atomic_load_n(&m->park, __ATOMIC_SEQ_CST)) {
+            __atomic_store_n(&m->park, 0, __ATOMIC_SEQ_CST);
+            __atomic_store_n(&m->parked, 1, __ATOMIC_SEQ_CST);
+            VRT_ABT(ABT_self_suspend());
+            __atomic_store_n(&m->parked, 0, __ATOMIC_SEQ_CST);
+        } else {
+            ABT_thread_yield();
+        }
+    }
+    __atomic_store_n(&m->done, 1, __ATOMIC_SEQ_CST);
+}
+
+/* wait until the unit reports a slice start (n more slices) */
+static void mig_wait_slices(long n)
+{
+    long s0 = __atomic_load_n(&g_m.slices, __ATOMIC_SEQ_CST);
+    while (__atomic_load_n(&g_m.slices, __ATOMIC_SEQ_CST) < s0 + n && vrt_num_violations() == 0)
+        ABT_thread_yield();
+}
+/* park the unit (BLOCKED, pool known), run f, resume */
+static int mig_park(void)
+{
+    __atomic_store_n(&g_m.park, 1, __ATOMIC_SEQ_CST);
+    for (;;) {
+        ABT_thread_state st;
+        VRT_ABT(ABT_thread_get_state(g_m.th, &st));
+        if (__atomic_load_n(&g_m.parked, __ATOMIC_SEQ_CST) && st == ABT_THREAD_STATE_BLOCKED)
+            break;
+        ABT_thread_yield();
+    }
+    return __atomic_load_n(&g_m.cur_pool, __ATOMIC_SEQ_CST);
+}
+
+typedef struct {
+    uint64_t seed;
+    int n;
+    int is_ext;
+    int done;
+} mreq_t;
+static void mreq_body(mreq_t *q)
+{
+    vrt_rng r = { q->seed };
+    for (int i = 0; i < q->n && vrt_num_violations() == 0; i++) {
+        int k = (int)vrt_range(&r, (uint64_t)g_nmpools);
+        mreq_lock();
+        int prevt = mig_request_begin();
+        int rc = ABT_thread_migrate_to_pool(g_m.th, g_mpools[k]);
+        mig_request_end(rc, k, prevt);
+        mreq_unlock();
+        if (rc == ABT_SUCCESS) {
+            vrt_count(c_mreq_ok, 1);
+        } else if (rc == ABT_ERR_MIGRATION_TARGET) {
+            vrt_count(c_mreq_rejected, 1);
+        } else {
+            vrt_violation("migrate:request-rc", "migrate_to_pool returned %d", rc);
+        }
+        vrt_count(c_mconc_req, 1);
+        if (q->is_ext)
+            vrt_sleep_us((unsigned)vrt_range(&r, 60));
+        else
+            ABT_thread_yield();
+    }
+    __atomic_store_n(&q->done, 1, __ATOMIC_SEQ_CST);
+}
+static void mreq_fn(void *arg)
+{
+    mreq_body((mreq_t *)arg);
+}
+static void *mreq_pt(void *arg)
+{
+    mreq_body((mreq_t *)arg);
+    return NULL;
+}
+
+static ABT_thread g_msched_thread; /* the main scheduler ULT of the user-scheduled stream */
+static int g_msched_published;
+static void msched_run(ABT_sched sched)
+{
+    if (!__atomic_load_n(&g_msched_published, __ATOMIC_SEQ_CST)) {
+        ABT_self_get_thread(&g_msched_thread);
+        __atomic_store_n(&g_msched_published, 1, __ATOMIC_SEQ_CST);
+    }
+    usched_run(sched);
+}
+static ABT_sched_def g_msched_def = { .type = ABT_SCHED_TYPE_ULT, .init = usched_init, .run = msched_run,
+                                      .free = usched_free, .get_migr_pool = NULL };
+
+static int g_mfirst_go;
+static ABT_thread g_mfirst_thread;
+static int c_mfirst_race;
+void *mfirst_pt(void *arg)
+{
+    int k = (int)(uintptr_t)arg;
+    while (!__atomic_load_n(&g_mfirst_go, __ATOMIC_SEQ_CST))
+        ;
+    ABT_thread_migrate_to_pool(g_mfirst_thread, g_mpools[k]);
+    return NULL;
+}
+static void mig_dummy(void *arg)
+{
+    int *flag = (int *)arg;
+    while (!__atomic_load_n(flag, __ATOMIC_SEQ_CST))
+        ABT_thread_yield();
+}
+
+static void mig_observer(int id)
+{
+    if (id == ABTI_VERIF_P_MIGRATE_BEFORE_CLEAR)
+        mring('h', 0, 0);
+    else if (id == ABTI_VERIF_P_MIGRATE_AFTER_TARGET_SET)
+        mring('r', 0, 0);
+    else if (id == ABTI_VERIF_C_SCHEDULE_MIGRATED)
+        mring('m', 0, 0);
+}
+static void run_migrate(vrt_rng *r, int idx)
+{
+    if (vrt_arg_has("trace")) {
+        vrt_point_observer = mig_observer;
+        g_mring_on = 1;
+    }
+    VRT_ABT(ABT_init(0, NULL));
+    memset(&g_m, 0, sizeof(g_m));
+    g_m.rng.s = vrt_next(r);
+    int nes = 3 + (int)vrt_range(r, 2);
+    ABT_xstream xs[5];
+    ABT_sched scheds[5];
+    VRT_ABT(ABT_xstream_self(&xs[0]));
+    g_nmpools = nes; /* pool i belongs to stream i; the primary's pool is index 0 */
+    VRT_ABT(ABT_xstream_get_main_pools(xs[0], 1, &g_mpools[0]));
+    static const int pk[] = { ABT_POOL_FIFO, ABT_POOL_FIFO_WAIT, ABT_POOL_RANDWS };
+    static const ABT_sched_predef sp[] = { ABT_SCHED_BASIC, ABT_SCHED_PRIO, ABT_SCHED_DEFAULT };
+    g_msched_published = 0;
+    for (int i = 1; i < nes; i++) {
+        VRT_ABT(ABT_pool_create_basic((ABT_pool_kind)pk[vrt_range(r, 3)], ABT_POOL_ACCESS_MPMC, ABT_TRUE, &g_mpools[i]));
+        if (i == nes - 1) {
+            /* a stream with a user-defined scheduler (also gives us the handle of a main-scheduler ULT) */
+            ABT_sched_config cfg;
+            VRT_ABT(ABT_sched_config_create(&cfg, ABT_sched_config_automatic, 1, ABT_sched_config_var_end));
+            VRT_ABT(ABT_sched_create(&g_msched_def, 1, &g_mpools[i], cfg, &scheds[i]));
+            VRT_ABT(ABT_sched_config_free(&cfg));
+        } else {
+            VRT_ABT(ABT_sched_create_basic(sp[vrt_range(r, 3)], 1, &g_mpools[i], ABT_SCHED_CONFIG_NULL, &scheds[i]));
+        }
+        VRT_ABT(ABT_xstream_create(scheds[i], &xs[i]));
+    }
+    while (!__atomic_load_n(&g_msched_published, __ATOMIC_SEQ_CST))
+        ABT_thread_yield();
+    /* the migrating unit starts in pool 1 */
+    g_m.cur_pool = -1;
+    VRT_ABT(ABT_thread_create(g_mpools[1], mig_fn, &g_m, ABT_THREAD_ATTR_NULL, &g_m.th));
+    VRT_ABT(ABT_thread_set_callback(g_m.th, mig_cb, &g_m));
+    mig_wait_slices(2);
+    /* --- phase A: sequential, exact: every request is performed exactly once with one callback --- */
+    int nseq = 20 + (int)vrt_range(r, 60);
+    for (int i = 0; i < nseq && vrt_num_violations() == 0; i++) {
+        int cur = mig_park(); /* quiescent: BLOCKED in a known pool */
+        int k = (int)vrt_range(r, (uint64_t)g_nmpools);
+        int cb0 = __atomic_load_n(&g_m.cb_count, __ATOMIC_SEQ_CST);
+        unsigned how = (unsigned)vrt_range(r, 3);
+        int rc;
+        if (how == 0 || k == 0) {
+            rc = ABT_thread_migrate_to_pool(g_m.th, g_mpools[k]);
+        } else if (how == 1) {
+            rc = ABT_thread_migrate_to_xstream(g_m.th, xs[k]);
+            vrt_count(c_mto_xstream, 1);
+        } else {
+            rc = ABT_thread_migrate_to_sched(g_m.th, scheds[k]);
+            vrt_count(c_mto_sched, 1);
+        }
+        if (k == cur) {
+            VRT_CHECK(rc != ABT_SUCCESS, "migrate:request-to-current-pool-accepted",
+                      "a request naming the unit's current pool %d returned success (variant %u)", k, how);
+            vrt_count(c_mrej_same_pool, 1);
+            VRT_ABT(ABT_thread_resume(g_m.th));
+            mig_wait_slices(2);
+            VRT_CHECK(__atomic_load_n(&g_m.cur_pool, __ATOMIC_SEQ_CST) == cur &&
+                          __atomic_load_n(&g_m.cb_count, __ATOMIC_SEQ_CST) == cb0,
+                      "migrate:rejected-request-had-effect", "a rejected request changed the pool or ran the callback");
+        } else {
+            VRT_CHECK(rc == ABT_SUCCESS, "migrate:valid-request-rejected",
+                      "request from pool %d to pool %d (variant %u) returned %d", cur, k, how, rc);
+            if (rc == ABT_SUCCESS)
+                mig_note_request(k);
+            VRT_ABT(ABT_thread_resume(g_m.th));
+            mig_wait_slices(2);
+            if (rc == ABT_SUCCESS && vrt_num_violations() == 0) {
+                int now = __atomic_load_n(&g_m.cur_pool, __ATOMIC_SEQ_CST);
+                int cb1 = __atomic_load_n(&g_m.cb_count, __ATOMIC_SEQ_CST);
+                VRT_CHECK(now == k, "migrate:not-moved", "after a successful request to pool %d and two scheduling points the "
+                          "unit runs from pool %d", k, now);
+                VRT_CHECK(cb1 == cb0 + 1, "migrate:callback-count", "one performed migration, callback ran %d times", cb1 - cb0);
+                ABT_pool lp;
+                VRT_ABT(ABT_thread_get_last_pool(g_m.th, &lp));
+                vrt_count(c_mseq_exact, 1);
+            }
+        }
+    }
+    /* --- phase C: rejections --- */
+    if (vrt_num_violations() == 0) {
+        int cur = mig_park();
+        int other = (cur + 1) % g_nmpools;
+        VRT_ABT(ABT_thread_set_migratable(g_m.th, ABT_FALSE));
+        int cb0 = __atomic_load_n(&g_m.cb_count, __ATOMIC_SEQ_CST);
+        int rc = ABT_thread_migrate_to_pool(g_m.th, g_mpools[other]);
+        VRT_CHECK(rc != ABT_SUCCESS, "migrate:nonmigratable-accepted", "request for a non-migratable unit returned success");
+        rc = ABT_thread_migrate(g_m.th);
+        VRT_CHECK(rc != ABT_SUCCESS, "migrate:nonmigratable-accepted", "ABT_thread_migrate for a non-migratable unit returned success");
+        vrt_count(c_mrej_nonmigratable, 1);
+        VRT_ABT(ABT_thread_resume(g_m.th));
+        mig_wait_slices(2);
+        VRT_CHECK(__atomic_load_n(&g_m.cur_pool, __ATOMIC_SEQ_CST) == cur && __atomic_load_n(&g_m.cb_count, __ATOMIC_SEQ_CST) == cb0,
+                  "migrate:rejected-request-had-effect", "a request for a non-migratable unit had an effect");
+        /* ABT_thread_set_migratable is not thread safe with respect to the
+         * target: change it only while the unit is parked */
+        (void)mig_park();
+        VRT_ABT(ABT_thread_set_migratable(g_m.th, ABT_TRUE));
+        VRT_ABT(ABT_thread_resume(g_m.th));
+        mig_wait_slices(2);
+        /* main scheduler ULT */
+        rc = ABT_thread_migrate_to_pool(g_msched_thread, g_mpools[1]);
+        VRT_CHECK(rc != ABT_SUCCESS, "migrate:main-sched-accepted", "migration request for a main-scheduler ULT returned success");
+        vrt_count(c_mrej_mainsched, 1);
+    }
+    /* --- phase D: ABT_thread_migrate picks some other running stream --- */
+    for (int i = 0; i < 8 && vrt_num_violations() == 0; i++) {
+        int cur = mig_park();
+        int rank0 = __atomic_load_n(&g_m.cur_rank, __ATOMIC_SEQ_CST);
+        int cb0 = __atomic_load_n(&g_m.cb_count, __ATOMIC_SEQ_CST);
+        int rc = ABT_thread_migrate(g_m.th);
+        if (rc != ABT_SUCCESS) {
+            vrt_violation("migrate:migrate-no-target", "ABT_thread_migrate returned %d although %d other execution streams "
+                          "are running (unit in pool %d, last stream %d)", rc, nes - 1, cur, rank0);
+            VRT_ABT(ABT_thread_resume(g_m.th));
+            break;
+        }
+        vrt_count(c_mmigrate_any_ok, 1);
+        mig_note_request(0xff); /* target chosen by the runtime: unknown until observed */
+        VRT_ABT(ABT_thread_resume(g_m.th));
+        mig_wait_slices(2);
+        int now = __atomic_load_n(&g_m.cur_pool, __ATOMIC_SEQ_CST);
+        int rank1 = __atomic_load_n(&g_m.cur_rank, __ATOMIC_SEQ_CST);
+        VRT_CHECK(now != cur && rank1 != rank0, "migrate:migrate-did-not-move",
+                  "ABT_thread_migrate returned success but the unit still runs from pool %d on stream %d (was pool %d, stream %d)",
+                  now, rank1, cur, rank0);
+        VRT_CHECK(__atomic_load_n(&g_m.cb_count, __ATOMIC_SEQ_CST) == cb0 + 1, "migrate:callback-count",
+                  "ABT_thread_migrate: callback ran %d times", __atomic_load_n(&g_m.cb_count, __ATOMIC_SEQ_CST) - cb0);
+        /* keep the sequence word in step with what happened */
+        mig_note_request(now);
+    }
+    /* --- phase B: concurrent requesters (ULT + external) and self requests, racing with yields --- */
+    if (vrt_num_violations() == 0) {
+        __atomic_store_n(&g_m.self_requests, 1, __ATOMIC_SEQ_CST);
+        mreq_t q[3];
+        ABT_thread qth[3];
+        pthread_t qpt[3];
+        int nq = 1 + (int)vrt_range(r, 3);
+        int cb0 = __atomic_load_n(&g_m.cb_count, __ATOMIC_SEQ_CST);
+        uint64_t seq0 = __atomic_load_n(&g_m.req, __ATOMIC_SEQ_CST) >> 8;
+        for (int i = 0; i < nq; i++) {
+            q[i].seed = vrt_next(r);
+            q[i].n = 100 + (int)vrt_range(r, 400);
+            q[i].is_ext = (int)vrt_range(r, 2);
+            q[i].done = 0;
+            if (q[i].is_ext)
+                pthread_create(&qpt[i], NULL, mreq_pt, &q[i]);
+            else
+                VRT_ABT(ABT_thread_create(g_mpools[0], mreq_fn, &q[i], ABT_THREAD_ATTR_NULL, &qth[i]));
+        }
+        for (int i = 0; i < nq; i++) {
+            while (!__atomic_load_n(&q[i].done, __ATOMIC_SEQ_CST))
+                ABT_thread_yield();
+            if (q[i].is_ext)
+                pthread_join(qpt[i], NULL);
+            else
+                VRT_ABT(ABT_thread_free(&qth[i]));
+        }
+        __atomic_store_n(&g_m.self_requests, 0, __ATOMIC_SEQ_CST);
+        mig_wait_slices(4);
+        int cbs = __atomic_load_n(&g_m.cb_count, __ATOMIC_SEQ_CST) - cb0;
+        uint64_t reqs = (__atomic_load_n(&g_m.req, __ATOMIC_SEQ_CST) >> 8) - seq0;
+        VRT_CHECK((uint64_t)cbs <= reqs, "migrate:more-callbacks-than-requests", "%d callbacks for %llu successful requests",
+                  cbs, (unsigned long long)reqs);
+    }
+    /* stop */
+    __atomic_store_n(&g_m.stop, 1, __ATOMIC_SEQ_CST);
+    VRT_ABT(ABT_thread_free(&g_m.th));
+    /* first-request race: two external threads issue the very first requests
+     * (no callback set before) for a fresh unit at the same time: the lazily
+     * created migration record must not be leaked or torn (LSan/ASan/TSan) */
+    for (int k = 0; k < 6 && vrt_num_violations() == 0; k++) {
+        int flag = 0;
+        ABT_thread t;
+        pthread_t pa, pb;
+        extern void *mfirst_pt(void *);
+        VRT_ABT(ABT_thread_create(g_mpools[1], mig_dummy, &flag, ABT_THREAD_ATTR_NULL, &t));
+        void *args[2] = { (void *)t, (void *)&flag };
+        g_mfirst_go = 0;
+        g_mfirst_thread = t;
+        pthread_create(&pa, NULL, mfirst_pt, (void *)(uintptr_t)2);
+        pthread_create(&pb, NULL, mfirst_pt, (void *)(uintptr_t)(nes - 1));
+        __atomic_store_n(&g_mfirst_go, 1, __ATOMIC_SEQ_CST);
+        pthread_join(pa, NULL);
+        pthread_join(pb, NULL);
+        (void)args;
+        __atomic_store_n(&flag, 1, __ATOMIC_SEQ_CST);
+        VRT_ABT(ABT_thread_free(&t));
+        vrt_count(c_mfirst_race, 1);
+    }
+    VRT_CHECK(g_m.done == 1 && g_m.starts == 1, "migrate:not-exactly-once", "starts=%d done=%d", g_m.starts, g_m.done);
+    VRT_CHECK(!g_m.cb_bad, "migrate:callback-arguments", "the migration callback received a wrong thread handle or argument");
+    VRT_CHECK(g_m.cb_count >= g_m.changes, "migrate:fewer-callbacks-than-moves", "%d pool changes observed, %d callbacks",
+              g_m.changes, g_m.cb_count);
+    if (vrt_num_violations())
+        return;
+    for (int i = 1; i < nes; i++) {
+        VRT_ABT(ABT_xstream_join(xs[i]));
+        VRT_ABT(ABT_xstream_free(&xs[i]));
+    }
+    /* single stream: no other running stream exists */
+    {
+        int flag = 0;
+        ABT_thread t;
+        VRT_ABT(ABT_thread_create(g_mpools[0], mig_dummy, &flag, ABT_THREAD_ATTR_NULL, &t));
+        int rc = ABT_thread_migrate(t);
+        VRT_CHECK(rc != ABT_SUCCESS, "migrate:migrate-without-target-accepted",
+                  "ABT_thread_migrate returned success although only one execution stream exists");
+        vrt_count(c_mmigrate_any_na, 1);
+        __atomic_store_n(&flag, 1, __ATOMIC_SEQ_CST);
+        VRT_ABT(ABT_thread_free(&t));
+    }
+    VRT_ABT(ABT_finalize());
+    if (idx < 2)
+        vrt_sample("migrate scenario %d: %d streams (one with a user-defined scheduler), %d sequential exact requests via "
+                   "migrate_to_pool/xstream/sched on a parked unit, rejections, ABT_thread_migrate x8, then concurrent "
+                   "requesters + self requests racing with the unit's yields; %d pool changes, %d callbacks", idx, nes, nseq,
+                   g_m.changes, g_m.cb_count);
+    vrt_signature_add("es%d,seq%d", nes, nseq / 10);
+    vrt_count(c_mscen, 1);
+    vrt_count(c_cases, 1);
+}
+
 int main(int argc, char **argv)
 {
     vrt_init(argc, argv, "h_units");
@@ -2336,6 +2839,26 @@ int main(int argc, char **argv)
         int n = (int)vrt_arg_int("scenarios", 10);
         for (int i = 0; i < n && vrt_num_violations() == 0; i++)
             run_life(&r, i, (int)vrt_arg_int("max-cycles", 200));
+    } else if (!strcmp(mode, "migrate")) {
+        c_mscen = vrt_counter("migrate_scenarios");
+        c_mreq_ok = vrt_counter("concurrent_requests_accepted");
+        c_mreq_rejected = vrt_counter("concurrent_requests_rejected_same_pool");
+        c_mseq_exact = vrt_counter("sequential_migrations_checked_exactly");
+        c_mconc_req = vrt_counter("concurrent_requests");
+        c_mself_req = vrt_counter("self_issued_requests");
+        c_mcb = vrt_counter("callbacks");
+        c_mrej_same_pool = vrt_counter("rejected_current_pool");
+        c_mrej_nonmigratable = vrt_counter("rejected_non_migratable");
+        c_mrej_mainsched = vrt_counter("rejected_main_scheduler_ult");
+        c_mmigrate_any_ok = vrt_counter("thread_migrate_moved_to_other_stream");
+        c_mmigrate_any_na = vrt_counter("thread_migrate_no_target_rejected");
+        c_mto_xstream = vrt_counter("migrate_to_xstream");
+        c_mto_sched = vrt_counter("migrate_to_sched");
+        c_mslices = vrt_counter("slices_observed");
+        c_mfirst_race = vrt_counter("first_request_races");
+        int n = (int)vrt_arg_int("scenarios", 10);
+        for (int i = 0; i < n && vrt_num_violations() == 0; i++)
+            run_migrate(&r, i);
     } else {
         vrt_fatal("unknown mode %s", mode);
     }
